@@ -317,6 +317,14 @@ def gen(r, tier):
                 ops.append({"op": "get", "c": c, "loc": ["key", ep, d]})
             else:
                 ops.append({"op": "look", "c": c, "kind": kind, "mode": "strict", "q": []})
+    if r.chance(0.12):
+        # verbose registrants: look-up answers outgrow one datagram and are fetched block-wise
+        for op in ops:
+            for link in op.get("links") or []:
+                if not any(k == "title" for k, _ in link[1]):
+                    link[1].append(["title", "long " + "t" * r.choice([150, 280])])
+            while op.get("links") and len(lf_write(op["links"]).encode("utf-8")) > MAX_BODY:
+                op["links"].pop()
     net = faults.swarm(r, kinds=("drop", "dup", "delay"), fault_free=0.55, heavy=0.05)
     if net.get("delay_max", 0) > 3.0:
         net["delay_max"] = 3.0
